@@ -33,7 +33,7 @@ class Task:
         return t
 
     def status(self):
-        if self.st in ("parked", "await", "comp", "ready"):
+        if self.st in ("parked", "await", "comp", "ready", "new", "deferred"):
             return 1
         if self.st == "receipt":
             return 2
@@ -314,13 +314,60 @@ class Sim:
                 self.set(x, "done", 3)
             else:
                 self.window_then_proceed(x)
+            if x.sm is not None and x.st == "done" and x.arg == 9:
+                # the call itself panicked: no StreamingPayload is returned
+                x.sm.update(rx=False, alive=False, pend=None, cstat=0)
+        self.tasks[t] = x
+
+    def create(self, t, k, idq=0, size=0):
+        """operation 16: the API call without the first poll"""
+        idq %= 65536
+        if t in self.tasks or k == 0 or k > 7:
+            return
+        if k == 6:
+            return self.start(t, k, idq, size)
+        if k == 5:
+            x = Task(k)
+            if self.closed():
+                self.set(x, "deferred", 3)
+            else:
+                c = self.wait_readiness()
+                if c is None:
+                    self.set(x, "deferred", 2)
+                else:
+                    self.set(x, "ready", c)
+        elif k in (3, 4):
+            x = Task(k, idq, 0)
+            self.set(x, "new")
+        else:
+            x = Task(k, idq, size if k == 7 else 0)
+            if k == 7:
+                x.sm = {"sg": self.new_chan(), "rx": True, "inproc": False, "alive": True, "pend": None, "cstat": 0}
+                x.ttx = True
+            if self.closed():
+                self.drop_sig(x)
+                self.set(x, "done", 3)
+            else:
+                self.window_then_proceed(x)
+            if x.sm is not None and x.st == "done" and x.arg == 9:
+                # the call itself panicked: no StreamingPayload is returned
+                x.sm.update(rx=False, alive=False, pend=None, cstat=0)
+            if x.st == "done" and x.arg != 9:
+                self.set(x, "deferred", x.arg)
         self.tasks[t] = x
 
     def poll_task(self, t):
         x = self.tasks.get(t)
         if x is None:
             return
-        if x.st == "parked":
+        if x.st == "new":
+            if self.closed():
+                self.set(x, "done", 3)
+            else:
+                self.window_then_proceed(x)
+        elif x.st == "deferred":
+            self.set(x, "done", x.arg)
+        elif x.st == "parked":
             r = self.poll(x.arg)
             if r == "canceled" or (r == "val" and self.closed()):
                 self.drop_sig(x)
@@ -339,8 +386,10 @@ class Sim:
 
     def drop_task(self, t):
         x = self.tasks.get(t)
-        if x is None or x.st not in ("parked", "await", "comp", "ready"):
+        if x is None or x.st not in ("parked", "await", "comp", "ready", "new", "deferred"):
             return
+        if x.st in ("new", "deferred"):
+            return self.set(x, "dropped")
         self.drop_rx(x.arg)
         if x.st == "parked":
             self.drop_sig(x)
@@ -499,6 +548,8 @@ class Sim:
             self.drop_stream(a(1))
         elif o == 15 and len(op) >= 2:
             self.drop_chunk(a(1))
+        elif o == 16 and len(op) >= 3:
+            self.create(a(1), a(2), a(3), a(4))
         if self.io == 1:
             self.io = 2
         return self.observe()
@@ -518,6 +569,13 @@ class Sim:
         x = self.tasks[t]
         return x.st in ("parked", "ready") and self.chans[x.arg][0] == FILLED
 
+    def ripe(self, t):
+        """pending task whose next poll makes progress: unpolled, or its channel is no longer open"""
+        x = self.tasks[t]
+        if x.st in ("new", "deferred"):
+            return True
+        return x.st in ("parked", "await", "comp", "ready") and self.chans[x.arg][0] != OPEN
+
     def pending(self):
         return [t for t, x in sorted(self.tasks.items()) if x.status() == 1]
 
@@ -533,13 +591,17 @@ def run_sim(ver, case_line):
 
 
 # ---------------------------------------------------------------- exhaustive schedules
-def choices_small(s, ntasks, kinds, role):
-    """state-aware alphabet of the exhaustive enumeration"""
+def choices_small(s, ntasks, kinds, role, create=False):
+    """state-aware alphabet of the exhaustive enumeration; create: tasks are created without being polled
+    (operation 16) as well"""
     ch = []
     n = len(s.tasks)
     if n < ntasks:
         for k in kinds:
             ch.append([1, n + 1, k, 0])
+        if create:
+            for k in kinds:
+                ch.append([16, n + 1, k, 0])
     for t in s.pending():
         ch.append([2, t])
         ch.append([3, t])
@@ -564,7 +626,7 @@ def choices_small(s, ntasks, kinds, role):
     return ch
 
 
-def exhaustive(ver, maxlen, caps=(1, 2), ntasks=3, kinds=(1, 2, 5), role=0, limit=None, rng=None):
+def exhaustive(ver, maxlen, caps=(1, 2), ntasks=3, kinds=(1, 2, 5), role=0, limit=None, rng=None, create=False):
     """all operation lists of length maxlen (shorter ones when nothing more can happen) over the state-aware
     alphabet; every prefix is covered because every operation has its own observation"""
     out = []
@@ -573,7 +635,10 @@ def exhaustive(ver, maxlen, caps=(1, 2), ntasks=3, kinds=(1, 2, 5), role=0, limi
         if len(ops) == maxlen:
             out.append(ops)
             return
-        ch = choices_small(s, ntasks, kinds, role)
+        ch = choices_small(s, ntasks, kinds, role, create)
+        if create and not any(o[0] == 16 for o in ops) and len(ops) >= maxlen - 2:
+            # only schedules that use the new operation
+            ch = [o for o in ch if o[0] == 16]
         if not ch:
             out.append(ops)
             return
@@ -593,10 +658,16 @@ def exhaustive(ver, maxlen, caps=(1, 2), ntasks=3, kinds=(1, 2, 5), role=0, limi
 
 
 # ---------------------------------------------------------------- random schedules
-def rand_case(rng, ver, role=0, maxlen=40, flavour=None):
+def rand_case(rng, ver, role=0, maxlen=40, flavour=None, p_create=0.0):
+    """p_create: probability that a task is created without the first poll (operation 16) instead of started;
+    flavour "create": several tasks created back to back before any of them is polled"""
     flavour = flavour or rng.choice(["mixed", "mixed", "window", "qos2", "ids", "stream", "stream", "wrap", "errors"])
+    burst = flavour == "create"
+    if burst:
+        flavour = rng.choice(["window", "window", "mixed", "qos2", "stream", "ids"])
+        p_create = max(p_create, 0.7)
     cap = rng.randint(1, 4)
-    if flavour == "stream" and rng.random() < 0.6:
+    if (flavour == "stream" and rng.random() < 0.6) or (burst and rng.random() < 0.7):
         cap = rng.randint(1, 2)
     if role == 0 and rng.random() < 0.01:
         cap = 0
@@ -633,13 +704,26 @@ def rand_case(rng, ver, role=0, maxlen=40, flavour=None):
                 idq = rng.choice(used) if used and rng.random() < 0.25 else rng.randint(1, 6)
             if flavour == "wrap" and rng.random() < 0.1:
                 idq = rng.choice([65535, 1, 65534])
-            op = [1, next_t, k, idq]
+            op = [16 if rng.random() < p_create else 1, next_t, k, idq]
             if k == 7:
                 op.append(rng.choice([0, 1, 4, 10, 10, 25]))
             next_t += 1
+            if burst and op[0] == 16 and rng.random() < 0.6:
+                # a burst: more tasks created before anything is polled
+                for _ in range(rng.randint(1, 3)):
+                    ops.append(op)
+                    s.step(op)
+                    k2 = rng.choice(kinds)
+                    op = [16, next_t, k2, 0]
+                    if k2 == 7:
+                        op.append(rng.choice([0, 1, 4, 10]))
+                    next_t += 1
         elif r < 0.44:
             # resume something: prefer tasks that have something to do
-            cands = (filled + woken) if (filled + woken) and rng.random() < 0.85 else pend
+            unpolled = [t for t in pend if s.tasks[t].st in ("new", "deferred") or
+                        (s.tasks[t].st in ("parked", "await", "ready") and rng.random() < 0.15)]
+            first = filled + woken + (unpolled if p_create else [])
+            cands = first if first and rng.random() < 0.85 else pend
             if cands:
                 op = [2, rng.choice(cands)]
         elif r < 0.50:
@@ -770,7 +854,7 @@ def quiesce(s, ops, role, rounds=80):
         before = len(ops)
         for t in s.pending():
             x = s.tasks[t]
-            if s.chans[x.arg][0] != OPEN:
+            if s.ripe(t):
                 ops.append([2, t])
                 s.step(ops[-1])
         for t in s.receipts():
@@ -838,7 +922,7 @@ def stuck_report(ver, case, obs):
     # only tasks that are really parked in the window queue count, and only if nobody was woken and has not
     # run yet (the epilogue may have been cut short)
     parked = [t for t in pend if t in s.tasks and s.tasks[t].st in ("parked", "ready")]
-    if not parked or any(s.chans[s.tasks[t].arg][0] != OPEN for t in s.pending()):
+    if not parked or any(s.ripe(t) for t in s.pending()):
         return None
     return ("+".join(sorted(why)) or "UNEXPLAINED", parked[0])
 
@@ -876,6 +960,36 @@ def gen_all(rng, ver, role=0, exh_len=6, exh_limit=None, n_random=8000, n_qos2=8
     cases += exhaustive(ver, exh_len, role=role, limit=exh_limit, rng=rng, kinds=(1, 2, 5) if role == 0 else (1, 2, 3))
     cases += qos2_orders(rng, ver, role, n_qos2)
     cases += [rand_case(rng, ver, role) for _ in range(n_random)]
+    return cases
+
+
+CREATE_SEEDS = [
+    # two sends created back to back with ONE free slot, then polled (the window must hold)
+    "1,0;16,1,1,0;16,2,1,0;2,1;2,2;4,1,1;2,1;2,2;4,1,2;2,2",
+    "1,0;16,1,2,0;16,2,2,0;2,2;2,1",
+    "1,0;16,1,7,0,4;16,2,7,0,4;2,1;2,2;13,1,4;13,2,4",
+    "2,0;16,1,1,0;16,2,7,0,3;16,3,2,0;2,3;2,2;2,1",
+    # ready() checks in the call; subscribe / unsubscribe do nothing before the first poll
+    "1,0;16,1,5,0;16,2,1,0;16,3,5,0;2,1;2,3;4,1,1;2,3",
+    "1,0;16,1,3,0;16,2,1,0;2,1;2,2",
+    "1,0;16,1,4,0;10;2,1",
+    # created and dropped / closed before the first poll
+    "1,0;16,1,1,0;3,1;4,1,1;1,2,1,0",
+    "1,0;16,1,1,0;16,2,1,0;3,2;4,1,1;1,3,1,0;2,3",
+    "1,0;10;16,1,1,0;16,2,5,0;16,3,7,0,2;2,1;2,2;2,3;13,3,1",
+    "1,0;16,1,1,5;16,2,1,5;2,2;2,1",
+    "1,0;1,1,7,0,9;16,2,1,0;16,3,6,0;2,2",
+    "1,0;12,65535;16,1,1,0;16,2,7,0,3;2,1;2,2;13,2,1",
+]
+
+
+def gen_create(rng, ver, role=0, exh_len=5, n_random=8000, exh_limit=None):
+    """schedules using operation 16 (create without polling)"""
+    cases = list(CREATE_SEEDS) if role == 0 else [c.replace(",0;", ",%d;" % role, 1) for c in CREATE_SEEDS]
+    cases += exhaustive(ver, exh_len, role=role, limit=exh_limit, rng=rng, create=True,
+                        kinds=(1, 2, 5) if role == 0 else (1, 2, 3))
+    cases += [rand_case(rng, ver, role, flavour="create") for _ in range(n_random // 2)]
+    cases += [rand_case(rng, ver, role, p_create=0.35) for _ in range(n_random - n_random // 2)]
     return cases
 
 
